@@ -1,25 +1,47 @@
-(* C08: the schemas regenerated from the source tree are all inside the domain of the codec
-   theorem (checked by computation on every run). *)
+(* C08: the schemas regenerated from the source tree against the domain of the codec theorem
+   (checked by computation on every run). *)
 From ZC Require Import Model.Msgp Proof.Msgp Gen.MsgpSchema.
 Open Scope Z_scope.
+Open Scope list_scope.
 
-Lemma msgp_schemas_wfb : forallb (fun nt => mp_wf_tyb (snd nt)) msgp_schemas = true.
+(* the schemas outside the theorem are exactly those the translator reports as containing a
+   type whose UnmarshalMsg copies nothing back (no schema is outside for another reason) *)
+Lemma msgp_lossy_exact :
+  map fst (filter (fun nt => negb (mp_wf_tyb (snd nt))) msgp_schemas) = msgp_lossy.
 Proof. vm_compute. reflexivity. Qed.
 
-Lemma msgp_schemas_wf name t : In (name, t) msgp_schemas -> mp_wf_ty t.
+Lemma msgp_not_lossy_wf name t : In (name, t) msgp_schemas -> ~ In name msgp_lossy -> mp_wf_ty t.
 Proof.
-  intros Hin. apply mp_wf_tyb_sound. pose proof msgp_schemas_wfb as H. rewrite forallb_forall in H.
-  apply (H (name, t) Hin).
+  intros Hin Hn. apply mp_wf_tyb_sound. destruct (mp_wf_tyb t) eqn:E; [reflexivity|].
+  exfalso. apply Hn. rewrite <- msgp_lossy_exact. apply in_map_iff. exists (name, t). split; [reflexivity|].
+  apply filter_In. split; [exact Hin|]. cbn [snd]. rewrite E. reflexivity.
 Qed.
 
-Lemma msgp_schema_dec_enc name t : In (name, t) msgp_schemas ->
+Lemma msgp_schema_dec_enc name t : In (name, t) msgp_schemas -> ~ In name msgp_lossy ->
   forall v rest, mp_wf t v -> mp_dec t (mp_enc t v ++ rest) = Some (v, rest).
-Proof. intros Hin v rest Hv. apply mp_dec_enc; [eapply msgp_schemas_wf; eauto|exact Hv]. Qed.
+Proof. intros Hin Hn v rest Hv. apply mp_dec_enc; [eapply msgp_not_lossy_wf; eauto|exact Hv]. Qed.
 
-Lemma msgp_schema_canonical name t : In (name, t) msgp_schemas ->
+Lemma msgp_schema_canonical name t : In (name, t) msgp_schemas -> ~ In name msgp_lossy ->
   forall v, mp_wf t v -> exists v', mp_dec t (mp_enc t v) = Some (v', []) /\ mp_enc t v' = mp_enc t v.
-Proof. intros Hin v Hv. apply mp_enc_dec_enc; [eapply msgp_schemas_wf; eauto|exact Hv]. Qed.
+Proof. intros Hin Hn v Hv. apply mp_enc_dec_enc; [eapply msgp_not_lossy_wf; eauto|exact Hv]. Qed.
 
-Lemma msgp_schema_inj name t : In (name, t) msgp_schemas ->
+Lemma msgp_schema_inj name t : In (name, t) msgp_schemas -> ~ In name msgp_lossy ->
   forall v1 v2, mp_wf t v1 -> mp_wf t v2 -> mp_enc t v1 = mp_enc t v2 -> v1 = v2.
-Proof. intros Hin v1 v2 H1 H2. apply mp_enc_inj; auto. eapply msgp_schemas_wf; eauto. Qed.
+Proof. intros Hin Hn v1 v2 H1 H2. apply mp_enc_inj; auto. eapply msgp_not_lossy_wf; eauto. Qed.
+
+(* the full statement: every schema of the tree round trips *)
+Definition msgp_full_statement : Prop :=
+  forall name t, In (name, t) msgp_schemas ->
+  forall v rest, mp_wf t v -> mp_dec t (mp_enc t v ++ rest) = Some (v, rest).
+
+Lemma msgp_full_if_no_lossy : msgp_lossy = [] -> msgp_full_statement.
+Proof.
+  intros E name t Hin v rest Hv. eapply msgp_schema_dec_enc; eauto. rewrite E. intros [].
+Qed.
+
+(* a schema that drops what it decodes refutes it, as soon as it has a non-zero value *)
+Lemma msgp_full_refuted_by_drop name e v :
+  In (name, TDrop e) msgp_schemas -> mp_wf_ty e -> mp_wf e v -> v <> mp_zero e -> ~ msgp_full_statement.
+Proof.
+  intros Hin Ht Hv Hne Hfull. apply (mp_drop_loses e v [] Ht Hv Hne). apply (Hfull name (TDrop e) Hin). exact Hv.
+Qed.
